@@ -18,6 +18,8 @@ queue content, frame after frame.
 import GgrsModel.Model.Inventory
 import GgrsModel.Proofs.Queue
 import GgrsModel.Proofs.DelayStep
+import GgrsModel.Proofs.GlueDrop
+import GgrsModel.Proofs.DelayDrop
 
 namespace Ggrs
 
@@ -270,3 +272,64 @@ example (s : P2P) (R : Nat → List (Input × InputStatus)) (n : Nat)
    by show 0 ≤ s.nextSpectatorFrame; rw [hn]; exact Int.le_refl _⟩
 
 end Ggrs
+
+namespace Ggrs
+
+/-- **C11/C05, the owner's side with dropped players (rollback mode, either saving mode, drops detected
+locally).** After ANY run of remote-input arrivals, `advance_frame` calls, accepted
+`disconnect_player` calls and Disconnected events, one more call hands its remote endpoints only
+frames taken from the outgoing queue, each — once something has been sent — the frame right after
+the last one sent and complete for every local player, and each entry is exactly the input the
+named local player's own queue holds for that frame: whoever has dropped, the stream the
+remaining peers are sent is still the owner's queue, frame by frame. -/
+theorem C11_owner_sends_queue_drops (x y : P2P × TLState) (h0 : XGInv x) (hrun : XStar x y)
+    (now : Nat) (s' : P2P) (reqs' : List Request)
+    (hadv : y.1.advanceRollbackFrame now [] = .ok (s', reqs')) :
+    ∃ (gh gh2 gh' : DGhost) (st0 : List ConnStatus) (sA sB : P2P), SessInvD y.1 gh y.2 [] st0 ∧
+      SessInvD s' gh' y.2 reqs' s'.localConnectStatus ∧ gh'.specs = gh2.specs ∧
+      (∀ p, PrefixOf (gh.specs p).vals (gh2.specs p).vals) ∧
+      sA.lastSentOutgoingInputFrame = y.1.lastSentOutgoingInputFrame ∧ Sends gh2.g now sA sB ∧
+      s'.lastSentOutgoingInputFrame = sB.lastSentOutgoingInputFrame := by
+  obtain ⟨gh, st0, hy, hgy⟩ := XGInv_run x y h0 hrun
+  obtain ⟨gh2, gh', sA, sB, hinv', _, hsp, hpre, hlA, hs, hlB⟩ := rollbackTick_glueD y.1 s' gh y.2 [] reqs' now st0 hy hgy hadv
+  exact ⟨gh, gh2, gh', st0, sA, sB, hy, hinv', hsp, hpre, hlA, hs, hlB⟩
+
+/-- The premises are satisfiable: every state of the old world (session and glue invariants) with no
+disconnect scheduled. -/
+example (s : P2P) (gh : Ghost) (t : TLState) (h : SessInv s gh t []) (hg : GlueInv s gh)
+    (hdf : s.disconnectFrame = NULL_FRAME) : XGInv (s, t) :=
+  ⟨_, _, SessInvD_of_SessInv s gh t [] h hdf, hg⟩
+
+end Ggrs
+
+namespace Ggrs
+
+/-- **C11, delay changes at run time — in the largest world.** Start from a state with the session
+invariant with drops, the glue invariant and a non-negative spectator cursor (every such state of
+the earlier worlds qualifies, below) and run ANY interleaving of remote-input arrivals,
+`advance_frame` calls, `set_input_delay` calls for local players with any delays, accepted
+`disconnect_player` calls and Disconnected events. Then the invariants still hold — every live
+queue's ring implements the stream the specification prescribes, a local player's status names the
+newest frame its queue holds, the outgoing queue holds queue contents only — and one more call hands
+the remote endpoints only frames taken from the outgoing queue, consecutive and complete for the
+local players, each entry the input the owner's queue holds for that frame. -/
+theorem C11_delay_changes_drops (x y : P2P × TLState) (h0 : YInv x) (hrun : YStar x y)
+    (now : Nat) (s' : P2P) (reqs' : List Request)
+    (hadv : y.1.advanceRollbackFrame now [] = .ok (s', reqs')) :
+    ∃ (gh gh2 gh' : DGhost) (st0 : List ConnStatus) (sA sB : P2P), SessInvD y.1 gh y.2 [] st0 ∧ GlueInv y.1 gh.g ∧
+      SessInvD s' gh' y.2 reqs' s'.localConnectStatus ∧ GlueInv s' gh'.g ∧ gh'.specs = gh2.specs ∧
+      (∀ p, PrefixOf (gh.specs p).vals (gh2.specs p).vals) ∧
+      sA.lastSentOutgoingInputFrame = y.1.lastSentOutgoingInputFrame ∧ Sends gh2.g now sA sB ∧
+      s'.lastSentOutgoingInputFrame = sB.lastSentOutgoingInputFrame := by
+  obtain ⟨⟨gh, st0, hy, hgy⟩, _⟩ := YInv_run x y h0 hrun
+  obtain ⟨gh2, gh', sA, sB, hinv', hg', hsp, hpre, hlA, hs, hlB⟩ := rollbackTick_glueD y.1 s' gh y.2 [] reqs' now st0 hy hgy hadv
+  exact ⟨gh, gh2, gh', st0, sA, sB, hy, hgy, hinv', hg', hsp, hpre, hlA, hs, hlB⟩
+
+/-- Every state of the world with delay changes and no drops (`HInv`) with no disconnect scheduled
+satisfies the premises; so every `DStar` run from it is covered (`YStar_of_DStar`). -/
+example (x : P2P × TLState) (h : HInv x) (hdf : x.1.disconnectFrame = NULL_FRAME) : YInv x := by
+  obtain ⟨⟨gh, hs, hg⟩, hn⟩ := h
+  exact ⟨⟨_, _, SessInvD_of_SessInv x.1 gh x.2 [] hs hdf, hg⟩, hn⟩
+
+end Ggrs
+
